@@ -270,6 +270,8 @@ def run(ctx):
                 behs.append(b)
     behs.sort(key=lambda b: cm.term_key([b['prog'], b['style']]))
     predicted = sum(1 for b in behs if any(o['got'] != o['req'] for o in b['obs'][0]))
+    stale = [b for b in behs if any(o['got'] != o['req'] for o in b['obs'][0])]
+    shortest = sorted('%s [paramstyle %s]' % (show(b['prog'][0]), b['style']) for b in stale)[:2]
     if not predicted:
         raise MachineryError('the as-is model predicts no stale answer in any exported history')
 
@@ -282,6 +284,7 @@ def run(ctx):
         'traces_validated_against_impl': len(behs),
         'exhaustive': True,
         'histories_with_stale_answer_predicted_by_asis_model': predicted,
+        'asis_counterexample_shortest': shortest,
         'export_states': exp_states,
         'refuted_by_tlc': refuted,
         'checker_cmd': 'tlc PonyCache (fixed: Transparent holds; asis/seeded: refuted; export of all histories)',
